@@ -18,6 +18,7 @@ CONSTANTS
   BroadcastDedup = TRUE
   FIX_PruneEmpty = TRUE
   AllowLate = TRUE
+  AtomicCheck = FALSE
   FlipAccounts = {"A", "B"}
   Self <- Tr_Self
   LocalPats <- Tr_LocalPats
